@@ -1000,19 +1000,35 @@ def analyze(prog, resolver):
         orig_init(self, *a, **kw)
         analyzers.append(self)
 
+    created = []
+    last_new = {}
+    SI = type_inference.StmtInferrer
+    orig_si_init = SI.__init__
+
+    def si_init(self, *a, **kw):
+        orig_si_init(self, *a, **kw)
+        created.append(self)
+
     def visit_node(self, node):
         visits[0] += 1
         if visits[0] > VISIT_BUDGET:
             raise Diverged()
-        return orig_visit(self, node)
+        del created[:]
+        res = orig_visit(self, node)
+        if created:
+            # names the inferrer typed at the LAST visit of this node (annotations may be left over from earlier visits)
+            last_new[id(node.ast_node)] = set(str(k) for k in created[-1].new_symbols)
+        return res
 
     base.__init__ = init
     base.visit_node = visit_node
+    SI.__init__ = si_init
     try:
         node = type_inference.resolve(node, ctx, graphs, resolver)
     finally:
         base.__init__ = orig_init
         base.visit_node = orig_visit
+        SI.__init__ = orig_si_init
     a = Analysis()
     a.graphs = graphs
     a.analyzers = analyzers
@@ -1020,6 +1036,7 @@ def analyze(prog, resolver):
     a.types = {}
     a.closure = {}
     a.visits = visits[0]
+    a.last_new = last_new
     for i, n in enumerate(prog.nodes):
         t = anno.getanno(n, anno.Static.TYPES, None)
         if t is not None:
@@ -1036,6 +1053,15 @@ def analyze(prog, resolver):
 
 UNTYPED = 'c19-untyped-binding-keeps-stale-types'
 SIDE = 'c19-local-function-side-effects-not-applied'
+ALIAS = 'c19-closure-types-miss-calls-through-alias'
+
+
+def escapes(prog, g):
+    """the function value of local function g is used other than as the callee of a direct call
+    (h = g, passed as an argument, returned): it can then be called where its def name is not read"""
+    callees = set(id(n.func) for n in prog.nodes if isinstance(n, ast.Call))
+    return any(isinstance(n, ast.Name) and n.id == g.name and isinstance(n.ctx, ast.Load) and id(n) not in callees
+               for n in prog.nodes)
 
 
 def _depth(prog, f):
@@ -1057,6 +1083,9 @@ def judge(prog, an, runs):
       say 'unknown', so the name keeps the types of earlier bindings / of the other paths.
     SIDE: the offending value was bound inside a local function through a `nonlocal` declaration; calls
       of local functions have no side effects in the analysis.
+    ALIAS: a captured variable is read inside a local function (or listed in its closure types) whose
+      function value escapes (h = g, argument, return value): closure types are collected only at
+      statements that read the def name, a later call through the alias is not a call site.
     Propagation: an expression / assignment target whose reported set is wrong is explained when a
       name read inside the same statement is explained; a binding that stored such a value is
       'tainted' and explains later reads of that binding in the same run."""
@@ -1092,6 +1121,10 @@ def judge(prog, an, runs):
                             and (wf is not prog.fun_of(k) or wact != ev[4]):
                         # bound through `nonlocal` in another function, or in an earlier activation of this one
                         cause = SIDE
+                    elif wf is not None and prog.fun_of(k) is not wf and id(prog.fun_of(k)) in prog.parent_fun \
+                            and escapes(prog, prog.fun_of(k)):
+                        # a captured variable read inside a local function whose value escapes
+                        cause = ALIAS
                     if cause:
                         stmt_cause[st] = cause
                 elif not is_read:
@@ -1124,6 +1157,8 @@ def judge(prog, an, runs):
                         cause = tainted[sk]
                     elif wf is not None and isinstance(wn, ast.Name) and prog.owner(wf, wn.id) != wf.name:
                         cause = SIDE
+                    elif wf is not prog.nodes[fk] and escapes(prog, prog.nodes[fk]):
+                        cause = ALIAS
                 key = ('C', fk, name, tname(typeof(v)), cause)
                 if key in seen:
                     continue
